@@ -159,9 +159,10 @@ pub fn check_c12(ctx: &Ctx, known: &KnownFindings) -> Report {
     let evals = Mutex::new(0u64);
     let nontrivial = Mutex::new(0u64);
     let failures: Mutex<Vec<(Failure, Vec<u8>)>> = Mutex::new(vec![]);
+    let known: Mutex<std::collections::BTreeMap<String, u64>> = Mutex::new(Default::default());
     std::thread::scope(|s| {
         for t in 0..threads {
-            let (base, lows, uppers, tid_words, evals, nontrivial, failures, ks) = (&base, &lows, &uppers, &tid_words, &evals, &nontrivial, &failures, &ks);
+            let (base, lows, uppers, tid_words, evals, nontrivial, failures, ks, known) = (&base, &lows, &uppers, &tid_words, &evals, &nontrivial, &failures, &ks, &known);
             s.spawn(move || {
                 let mut pp = match lib_parse(base) {
                     Ok(Ok(p)) => p,
@@ -176,7 +177,8 @@ pub fn check_c12(ctx: &Ctx, known: &KnownFindings) -> Report {
                         *nt += 1;
                     }
                     if let Err(f) = eval(pp, base, s, word, arg) {
-                        if ks.iter().any(|k| f.sig.contains(k.as_str())) {
+                        if let Some(k) = ks.iter().find(|k| f.sig.contains(k.as_str())) {
+                            *known.lock().unwrap().entry(k.clone()).or_insert(0) += 1;
                             return;
                         }
                         if !failed_sigs.contains(&f.sig) && failed_sigs.len() < 4 {
@@ -234,6 +236,10 @@ pub fn check_c12(ctx: &Ctx, known: &KnownFindings) -> Report {
     let n = evals.into_inner().unwrap();
     let nt = nontrivial.into_inner().unwrap();
     rep.stats.evals = n;
+    for (k, v) in known.into_inner().unwrap() {
+        rep.stats.excluded += v;
+        *rep.known_hits.entry(k).or_insert(0) += v;
+    }
     for (f, data) in failures.into_inner().unwrap() {
         rep.founds.push(Found { failure: f, data });
     }
